@@ -23,9 +23,49 @@ props.prop(
 FRB = 'glue.core.fixed_resolution_buffer.compute_fixed_resolution_buffer'
 
 
+def _canonical(f):
+    """The buffer routine with its locals under the names the rules below use, found by role:
+    current_array_hash / current_pixel_hash  compared with ARRAY_CACHE[..]['hash'] / PIXEL_CACHE[..]['hash'];
+    invalid_all |= invalid                    the accumulation in the loop over the pixel attributes;
+    array[invalid_all] = invalid_value        the reset of the samples outside the source;
+    cache_bounds                              the result of bounds_for_cache(...)."""
+    from ..util import rename_locals, FuncView
+    m = {}
+    node = f.node
+    for c in ast.walk(node):
+        if isinstance(c, ast.Compare) and len(c.ops) == 1 and isinstance(c.ops[0], (ast.Eq, ast.NotEq)):
+            for a, b in ((c.left, c.comparators[0]), (c.comparators[0], c.left)):
+                if isinstance(a, ast.Name) and "['hash']" in unparse(b).replace('"', "'"):
+                    if 'ARRAY_CACHE' in unparse(b):
+                        m[a.id] = 'current_array_hash'
+                    elif 'PIXEL_CACHE' in unparse(b):
+                        m[a.id] = 'current_pixel_hash'
+    for lp in ast.walk(node):
+        if isinstance(lp, ast.For) and 'pixel_component_ids' in unparse(lp.iter):
+            if isinstance(lp.target, ast.Tuple) and len(lp.target.elts) == 2 and all(isinstance(e_, ast.Name) for e_ in lp.target.elts):
+                m[lp.target.elts[0].id] = 'ipix'
+                m[lp.target.elts[1].id] = 'pix'
+            for st in lp.body:
+                if isinstance(st, ast.AugAssign) and isinstance(st.op, ast.BitOr) and isinstance(st.target, ast.Name):
+                    m[st.target.id] = 'invalid_all'
+                    if isinstance(st.value, ast.Name):
+                        m[st.value.id] = 'invalid'
+    inv_all = [a for a, c_ in m.items() if c_ == 'invalid_all']
+    for st in ast.walk(node):
+        if isinstance(st, ast.Assign) and len(st.targets) == 1 and isinstance(st.targets[0], ast.Subscript) and \
+                isinstance(st.targets[0].slice, ast.Name) and st.targets[0].slice.id in inv_all and \
+                isinstance(st.targets[0].value, ast.Name) and isinstance(st.value, ast.Name):
+            m[st.targets[0].value.id] = 'array'
+            m[st.value.id] = 'invalid_value'
+        if isinstance(st, ast.Assign) and len(st.targets) == 1 and isinstance(st.targets[0], ast.Name) and \
+                isinstance(st.value, ast.Call) and call_name(st.value) == 'bounds_for_cache':
+            m[st.targets[0].id] = 'cache_bounds'
+    return FuncView(f, rename_locals(node, m))
+
+
 def run(ctx):
     ix = ctx.index
-    f = ix.func(FRB)
+    f = _canonical(ix.func(FRB))
     ctx.guard(rule_a, ctx, ix, f)
     ctx.guard(rule_b, ctx, ix, f)
     ctx.guard(rule_c, ctx, ix, f)
@@ -151,7 +191,7 @@ def rule_b(ctx, ix, f):
         return
     # every read PIXEL_CACHE[cache_id][ipix][...] comes after the eviction test (same cache_id is not None region)
     reads = [n for n in ast.walk(f.node) if isinstance(n, ast.Subscript) and isinstance(n.ctx, ast.Load)
-             and unparse(n).startswith('PIXEL_CACHE[cache_id][ipix][')]
+             and unparse(n).startswith('PIXEL_CACHE[cache_id][') and unparse(n).count('[') >= 3 and "['hash']" not in unparse(n)]
     if len(reads) < 3:
         raise AnalysisError('compute_fixed_resolution_buffer: pixel-cache reads not recognised')
     ok = all(r.lineno > ev[0].lineno for r in reads)
@@ -229,8 +269,9 @@ def rule_c(ctx, ix, f):
             ok = any(isinstance(st, ast.Assign) and unparse(st.targets[0]) == 'invalid' for st in body)
             ctx.ob(R, f.construct + ' ' + which, 'the %s branch defines the per-axis invalid mask' % which, ok,
                    detail='the %s branch does not define `invalid`' % which, where=where(f, use[0]))
+        ipix_ = unparse(lp.target.elts[0]) if isinstance(lp.target, ast.Tuple) and lp.target.elts else 'ipix'
         ok = any(isinstance(st, ast.Assign) and unparse(st.targets[0]) == 'invalid' and '< 0' in unparse(st.value) and '>=' in unparse(st.value)
-                 and 'data.shape[ipix]' in unparse(st.value) for st in use[0].orelse)
+                 and ('data.shape[%s]' % ipix_) in unparse(st.value) for st in use[0].orelse)
         ctx.ob(R, f.construct + ' bounds check', 'invalid = (coord < 0) | (coord >= size of that axis of the source)', ok,
                detail='the out-of-range test of the uncached branch is not (coord < 0) | (coord >= data.shape[ipix])', where=where(f, use[0]))
     from ..util import expand_locals, element_cases
